@@ -4,7 +4,7 @@
 cd /verif || exit 2
 for d in seeded/*/; do
   d=${d%/}
-  id=$(/venv/bin/python -c "import json,sys; print(json.load(open('$d/meta.json'))['property'])" 2>/dev/null) || { echo "$d: no meta.json"; continue; }
+  id=$(/venv/bin/python -c "import json,sys; m=json.load(open('$d/meta.json')); print(' '.join(m.get('checks',[m['property']])))" 2>/dev/null) || { echo "$d: no meta.json"; continue; }
   out=$(tools/try_seed.sh /verif/$d $id 2>&1)
   if echo "$out" | grep -q "patch does not apply"; then echo "$d: PATCH-DOES-NOT-APPLY";
   elif echo "$out" | grep -q "violations=[1-9]"; then echo "$d: DETECTED by $id ($(echo "$out" | grep 'first violation' | cut -c1-160))";
